@@ -230,7 +230,7 @@ def run(ctx):
     if ctx.thorough:
         acc.merge(core.pmap_acc(ctx.pid, _full_shard, [(ctx.pid, p, ctx.seed) for p in core.chunks(DAYS, 64)]))
         subs = ["the whole domain: day forms x clock templates x orders x connectors x hours {0,1,8,11,12,13,20,23} x minutes {0,5,30}"]
-    n = 16000 if ctx.thorough else int(os.environ.get("QAV_N", 4800))
+    n = 16000 if ctx.thorough else int(os.environ.get("QAV_N", 12000))
     acc.merge(core.pmap_acc(ctx.pid, _quick_shard, [(ctx.pid, ctx.seed, n // 16, i) for i in range(16)]))
     return core.finish(ctx, acc, RULE.format(nday=len(DAYS), nclock=len(CLOCKS)), assumptions=[
         "the day part alone and the clock part alone (latent off) are parsed with default options; their values define the expectation",
